@@ -54,69 +54,143 @@ theorem digits1_eq (s : Bytes) :
   · simp [hs]
   · simp only [hs, if_false, digitsVal_eq, ne_eq, not_false_eq_true, true_and]
 
-/-- `parse_unix_timestamp` reads the specification's integer and insists on `0 ≤ · ≤ 9999-12-31T23:59:59Z` -/
+theorem all_isDigit_eq (s : Bytes) : s.all isDigit = SigV2Spec.allDigits s := by
+  induction s with
+  | nil => rfl
+  | cons c cs ih => simp only [List.all_cons, SigV2Spec.allDigits, isDigit, ih]
+
+theorem isDecimal_plus (rest : Bytes) :
+    isDecimal (43 :: rest) = (decide (rest ≠ []) && SigV2Spec.allDigits rest) := by
+  unfold isDecimal
+  simp only [stripPrefix, if_true, Option.getD_some, all_isDigit_eq]
+  cases rest <;> simp
+
+theorem isDecimal_other (c : UInt8) (rest : Bytes) (h : ¬ c = 43) :
+    isDecimal (c :: rest) = SigV2Spec.allDigits (c :: rest) := by
+  unfold isDecimal
+  have : ¬ (43 : UInt8) = c := fun e => h e.symm
+  simp only [stripPrefix, this, if_false, Option.getD_none, all_isDigit_eq]
+  simp
+
+/-- every second count beyond `i64` is clamped to the same instant as `i64::MAX` -/
+theorem instant_big (n : Int) (h : ¬ n ≤ i64Max) : instantOfUnixTs i64Max = instantOfUnixTs n := by
+  unfold instantOfUnixTs i64Max maxUnixTs at *
+  have h1 : ¬ ((9223372036854775807 : Int) ≤ 253402300799) := by omega
+  have h2 : ¬ (n ≤ 253402300799) := by omega
+  simp only [h1, h2, if_false]
+
+/-- the clamped instant is never after the second it stands for -/
+theorem instant_le (e : Int) : instantOfUnixTs e ≤ e * 1000000000 := by
+  unfold instantOfUnixTs maxUnixTs maxDateTimeNs
+  split <;> omega
+
+/-- and for a clock inside the range of `OffsetDateTime` it expires no earlier -/
+theorem le_instant (nowNs e : Int) (hclock : nowNs ≤ maxDateTimeNs) (h : nowNs ≤ e * 1000000000) :
+    nowNs ≤ instantOfUnixTs e := by
+  unfold instantOfUnixTs
+  split
+  · exact h
+  · exact hclock
+
+/-- `parse_unix_timestamp` reads the specification's integer — any decimal number, however large —, insists
+    on `0 ≤ ·` and yields its instant, clamped to 9999-12-31T23:59:59.999999999Z -/
 theorem parseUnixTimestamp_eq (s : Bytes) :
     parseUnixTimestamp s =
-      (SigV2Spec.expiresValue s).bind fun x => if 0 ≤ x ∧ x ≤ maxUnixTs then some x else none := by
+      (SigV2Spec.expiresValue s).bind fun x => if 0 ≤ x then some (instantOfUnixTs x) else none := by
   unfold parseUnixTimestamp parseI64 SigV2Spec.expiresValue
   cases s with
   | nil => rfl
   | cons c rest =>
     simp only
     by_cases h43 : c = 43
-    · simp only [h43, if_true, digits1_eq]
+    · subst h43
+      simp only [if_true, digits1_eq, isDecimal_plus]
       by_cases hd : rest ≠ [] ∧ SigV2Spec.allDigits rest = true
-      · simp only [hd, and_self, if_true, Option.bind_some, ne_eq, not_false_eq_true]
+      · simp only [hd, and_self, if_true, Option.bind_some, ne_eq, not_false_eq_true, decide_true, Bool.true_and]
         generalize SigV2Spec.decValue rest 0 = n
-        unfold i64Max maxUnixTs
-        by_cases h1 : (n : Int) ≤ 9223372036854775807
-        · simp only [h1, if_true]
-        · have : ¬ ((0:Int) ≤ n ∧ (n:Int) ≤ 253402300799) := by omega
-          simp only [h1, if_false, this]
-      · simp only [hd, if_false, Option.bind_none]
+        by_cases h1 : (n : Int) ≤ i64Max
+        · have h0 : ¬ ((n : Int) < 0) := by omega
+          have h0' : (0 : Int) ≤ n := by omega
+          simp only [h1, if_true, h0, if_false, h0']
+        · have h0' : (0 : Int) ≤ n := by omega
+          have hi : ¬ (i64Max < 0) := by unfold i64Max; omega
+          simp only [h1, if_false, if_true, hi, h0', instant_big _ h1]
+      · have hd' : (decide (rest ≠ []) && SigV2Spec.allDigits rest) = false := by
+          cases hb : (decide (rest ≠ []) && SigV2Spec.allDigits rest) with
+          | false => rfl
+          | true =>
+            simp only [Bool.and_eq_true, decide_eq_true_eq] at hb
+            exact absurd hb hd
+        simp only [hd, if_false, hd', Bool.false_eq_true, Option.bind_none]
     · by_cases h45 : c = 45
-      · have : ¬ (45 : UInt8) = 43 := by decide
-        simp only [h45, this, if_false, if_true, digits1_eq]
+      · subst h45
+        have h1 : ¬ (45 : UInt8) = 43 := by decide
+        have h2 : SigV2Spec.allDigits (45 :: rest) = false := by simp [SigV2Spec.allDigits]
+        simp only [h1, if_false, if_true, digits1_eq, isDecimal_other 45 rest h1, h2, Bool.false_eq_true]
         by_cases hd : rest ≠ [] ∧ SigV2Spec.allDigits rest = true
         · simp only [hd, and_self, if_true, Option.bind_some, ne_eq, not_false_eq_true]
           generalize SigV2Spec.decValue rest 0 = n
-          unfold i64Min maxUnixTs
-          by_cases h1 : (-9223372036854775808 : Int) ≤ -(n : Int)
-          · simp only [h1, if_true]
-          · have : ¬ ((0:Int) ≤ -(n:Int) ∧ -(n:Int) ≤ 253402300799) := by omega
-            simp only [h1, if_false, this]
+          by_cases hm : i64Min ≤ -(n : Int)
+          · simp only [hm, if_true]
+            by_cases hz : (n : Int) = 0
+            · have a : ¬ (-(n : Int) < 0) := by omega
+              have b : (0 : Int) ≤ -(n : Int) := by omega
+              simp only [a, b, if_false, if_true]
+            · have a : (-(n : Int) < 0) := by omega
+              have b : ¬ (0 : Int) ≤ -(n : Int) := by omega
+              simp only [a, b, if_false, if_true]
+          · have b : ¬ (0 : Int) ≤ -(n : Int) := by unfold i64Min at hm; omega
+            simp only [hm, b, if_false]
         · simp only [hd, if_false, Option.bind_none]
-      · simp only [h43, h45, if_false, digits1_eq]
+      · simp only [h43, h45, if_false, digits1_eq, isDecimal_other c rest h43]
         by_cases hd : SigV2Spec.allDigits (c :: rest) = true
         · simp only [hd, ne_eq, reduceCtorEq, not_false_eq_true, and_self, if_true, Option.bind_some]
           generalize SigV2Spec.decValue (c :: rest) 0 = n
-          unfold i64Max maxUnixTs
-          by_cases h1 : (n : Int) ≤ 9223372036854775807
-          · simp only [h1, if_true]
-          · have : ¬ ((0:Int) ≤ n ∧ (n:Int) ≤ 253402300799) := by omega
-            simp only [h1, if_false, this]
+          by_cases h1 : (n : Int) ≤ i64Max
+          · have h0 : ¬ ((n : Int) < 0) := by omega
+            have h0' : (0 : Int) ≤ n := by omega
+            simp only [h1, if_true, h0, if_false, h0']
+          · have h0' : (0 : Int) ≤ n := by omega
+            have hi : ¬ (i64Max < 0) := by unfold i64Max; omega
+            simp only [h1, if_false, if_true, hi, h0', instant_big _ h1]
         · simp [hd]
+
+/-- what `PresignedUrlV2::parse` holds as expiry is the instant of the request's `Expires` parameter, read
+    as the specification reads it -/
+theorem parsePresigned_expires (q : Pairs) (p : Presigned) (h : parsePresigned q = some p) :
+    ∃ ex e, getUnique q (v2b!"Expires") = some ex ∧ SigV2Spec.expiresValue ex = some e ∧ 0 ≤ e ∧
+      p.expiresNs = instantOfUnixTs e := by
+  unfold parsePresigned at h
+  split at h
+  · rename_i ak ex sg hak hex hsg
+    rw [parseUnixTimestamp_eq] at h
+    cases hev : SigV2Spec.expiresValue ex with
+    | none => rw [hev] at h; cases h
+    | some e =>
+      rw [hev] at h
+      simp only [Option.bind_some] at h
+      by_cases h0 : 0 ≤ e
+      · simp only [h0, if_true, Option.some.injEq] at h
+        subst h
+        exact ⟨ex, e, hex, hev, h0, rfl⟩
+      · simp only [h0, if_false] at h
+        cases h
+  · cases h
 
 /-! ## the credentials -/
 
-/-- `Expires` is not beyond 9999-12-31T23:59:59Z — the complement is finding class `expires-out-of-range` -/
-def expiresInRange (r : SigV2Spec.Req) : Bool :=
-  (SigV2Spec.paramValues r (sp!"Expires")).all fun ex =>
-    match SigV2Spec.expiresValue ex with
-    | some e => decide (e ≤ maxUnixTs)
-    | none => true
-
-/-- the region on which the verdicts coincide: `wf` for the mode the request uses, plus the condition
-    on the presigned `Expires` (the `Signature` value needs none: it is compared as the query parser
-    delivers it, repaired — was finding class `signature-double-encoded`) -/
+/-- the region on which the verdicts coincide: `wf` for the mode the request uses. Nothing is asked of
+    the presigned parameters any more: the `Signature` value is compared as the query parser delivers it
+    (repaired, was finding class `signature-double-encoded`) and every non-negative decimal `Expires` is
+    read (repaired, was finding class `expires-out-of-range`) -/
 def wfVerdict (r : SigV2Spec.Req) : Bool :=
-  if SigV2Spec.paramValues r (sp!"Signature") ≠ [] then wf .query r && expiresInRange r
-  else wf .header r
+  if SigV2Spec.paramValues r (sp!"Signature") ≠ [] then wf .query r else wf .header r
 
-/-- credentials as the model holds them; an `Expires` before the epoch does not parse in the model -/
+/-- credentials as the model holds them: an `Expires` before the epoch does not parse in the model, any
+    other is held as its instant, clamped to the last one the clock can show -/
 def toPresented (c : SigV2Spec.Creds) : Option Presented :=
   match c.expires with
-  | some e => if 0 ≤ e then some ⟨implMode c.mode, c.accessKey, c.signature, some e⟩ else none
+  | some e => if 0 ≤ e then some ⟨implMode c.mode, c.accessKey, c.signature, some (instantOfUnixTs e)⟩ else none
   | none => some ⟨implMode c.mode, c.accessKey, c.signature, none⟩
 
 theorem paramValues_eq_nil_iff (r : SigV2Spec.Req) (n : Bytes) :
@@ -139,31 +213,25 @@ theorem presignedQs_ctxOf (r : SigV2Spec.Req) :
     simp only [h, ne_eq, not_false_eq_true, if_true]
     rw [this]; rfl
 
-theorem presigned_case (r : SigV2Spec.Req) (h : wfVerdict r = true)
-    (hS : ¬ SigV2Spec.paramValues r (sp!"Signature") = []) :
+theorem presigned_case (r : SigV2Spec.Req) :
     (parsePresigned (sortByFirst r.query)).map
-        (fun p => (⟨.presignedUrl, p.accessKey, p.signature, some p.expires⟩ : Presented)) =
+        (fun p => (⟨.presignedUrl, p.accessKey, p.signature, some p.expiresNs⟩ : Presented)) =
       (SigV2Spec.queryCredentials r).bind toPresented := by
-  simp only [wfVerdict, hS, ne_eq, not_false_eq_true, if_true, Bool.and_eq_true] at h
-  obtain ⟨-, hexp⟩ := h
   unfold parsePresigned SigV2Spec.queryCredentials
   rw [getUnique_query, getUnique_query, getUnique_query]
-  unfold expiresInRange at hexp
-  generalize SigV2Spec.paramValues r (sp!"AWSAccessKeyId") = A at *
-  generalize SigV2Spec.paramValues r (sp!"Signature") = S at *
-  generalize SigV2Spec.paramValues r (sp!"Expires") = E at *
+  generalize SigV2Spec.paramValues r (sp!"AWSAccessKeyId") = A
+  generalize SigV2Spec.paramValues r (sp!"Signature") = S
+  generalize SigV2Spec.paramValues r (sp!"Expires") = E
   match A, S, E with
   | [ak], [sg], [ex] =>
-    simp only [theOnly, List.all_cons, List.all_nil, Bool.and_true] at hexp ⊢
+    simp only [theOnly]
     rw [parseUnixTimestamp_eq]
     cases hev : SigV2Spec.expiresValue ex with
     | none => simp
     | some e =>
-      rw [hev] at hexp
-      simp only [decide_eq_true_eq] at hexp
       simp only [Option.bind_some, Option.map_some, toPresented]
       by_cases h0 : 0 ≤ e
-      · simp [h0, hexp, implMode]
+      · simp [h0, implMode]
       · simp [h0]
   | [], _, _ => simp [theOnly]
   | _ :: _ :: _, _, _ => simp [theOnly]
@@ -172,7 +240,9 @@ theorem presigned_case (r : SigV2Spec.Req) (h : wfVerdict r = true)
   | [_], [_], [] => simp [theOnly]
   | [_], [_], _ :: _ :: _ => simp [theOnly]
 
-theorem presented_ctxOf (r : SigV2Spec.Req) (h : wfVerdict r = true) :
+/-- the credentials the code looks at are the credentials the specification reads off the request — for
+    every request -/
+theorem presented_ctxOf (r : SigV2Spec.Req) :
     presented (ctxOf r) = (SigV2Spec.credentials r).bind toPresented := by
   unfold presented SigV2Spec.credentials SigV2Spec.headerCredentials
   rw [presignedQs_ctxOf]
@@ -189,7 +259,7 @@ theorem presented_ctxOf (r : SigV2Spec.Req) (h : wfVerdict r = true) :
     · simp [hS, theOnly]
     · simp only [hS, ne_eq, not_false_eq_true, if_true, List.drop_nil, List.isEmpty_nil, List.length_nil,
         ge_iff_le]
-      exact presigned_case r h hS
+      exact presigned_case r
   | [a] =>
     by_cases hS : SigV2Spec.paramValues r (sp!"Signature") = []
     · simp only [hS, ne_eq, not_true_eq_false, if_false, parseAuthV2_eq, theOnly, List.drop_succ_cons,
@@ -197,7 +267,7 @@ theorem presented_ctxOf (r : SigV2Spec.Req) (h : wfVerdict r = true) :
       cases SigV2Spec.parseAuthorization a with
       | none => simp
       | some x => simp [toPresented, implMode]
-    · have := presigned_case r h hS
+    · have := presigned_case r
       simp only [hS, ne_eq, not_false_eq_true, if_true, List.drop_succ_cons, List.drop_zero, List.isEmpty_nil,
         List.length_cons, List.length_nil, ge_iff_le]
       simpa using this
@@ -250,18 +320,18 @@ theorem wf_of_credentials (r : SigV2Spec.Req) (c : SigV2Spec.Creds) (h : wfVerdi
   split at h
   · rename_i hS
     rw [if_pos hS]
-    simp only [Bool.and_eq_true] at h
-    exact h.1
+    exact h
   · rename_i hS
     rw [if_neg hS]
     exact h
 
-/-- outside the finding classes, and with the clock past the epoch, the code accepts a request for `ak`
-    exactly when the specification does -/
+/-- outside the finding classes, and with a clock reading `OffsetDateTime` can show (from the epoch to
+    9999-12-31T23:59:59.999999999Z), the code accepts a request for `ak` exactly when the specification does -/
 theorem accept_iff_spec (hmac : Bytes → Bytes → Bytes) (b64 : Bytes → Bytes) (lookup : Bytes → Option Bytes)
-    (nowNs : Int) (r : SigV2Spec.Req) (ak : Bytes) (hnow : 0 ≤ nowNs) (h : wfVerdict r = true) :
+    (nowNs : Int) (r : SigV2Spec.Req) (ak : Bytes) (hnow : 0 ≤ nowNs) (hclock : nowNs ≤ maxDateTimeNs)
+    (h : wfVerdict r = true) :
     check hmac b64 lookup nowNs (ctxOf r) = .accept ak ↔ SigV2Spec.Accepts hmac b64 lookup nowNs r ak := by
-  rw [check_accept_iff, presented_ctxOf r h]
+  rw [check_accept_iff, presented_ctxOf r]
   unfold SigV2Spec.Accepts SigV2Spec.signature
   constructor
   · rintro ⟨p, secret, hp, hak, hl, hs, hd, he⟩
@@ -304,14 +374,16 @@ theorem accept_iff_spec (hmac : Bytes → Bytes → Bytes) (b64 : Bytes → Byte
         simp only at hp
         split at hp
         · simp only [Option.some.injEq] at hp
-          exact he e (by rw [← hp])
+          have := he (instantOfUnixTs e) (by rw [← hp])
+          have := instant_le e
+          omega
         · cases hp
   · rintro ⟨c, secret, hc, hak, hl, hs, hd, he⟩
     have hwf := wf_of_credentials r c h hc
     rw [hc]
     simp only [Option.bind_some]
     have hp : ∃ p, toPresented c = some p ∧ p.mode = implMode c.mode ∧ p.accessKey = c.accessKey ∧
-        p.signature = c.signature ∧ p.expires = c.expires := by
+        p.signature = c.signature ∧ p.expiresNs = c.expires.map instantOfUnixTs := by
       unfold toPresented
       cases hce : c.expires with
       | none => exact ⟨_, rfl, rfl, rfl, rfl, rfl⟩
@@ -334,7 +406,13 @@ theorem accept_iff_spec (hmac : Bytes → Bytes → Bytes) (b64 : Bytes → Byte
       exact hd hcm
     · intro e hpe
       rw [hex] at hpe
-      exact he e hpe
+      cases hce : c.expires with
+      | none => rw [hce] at hpe; cases hpe
+      | some e0 =>
+        rw [hce] at hpe
+        simp only [Option.map_some, Option.some.injEq] at hpe
+        rw [← hpe]
+        exact le_instant nowNs e0 hclock (he e0 hce)
 
 /-- the executable reference the driver uses is the declarative `Accepts` -/
 theorem acceptedKey_iff (hmac : Bytes → Bytes → Bytes) (b64 : Bytes → Bytes) (lookup : Bytes → Option Bytes)
